@@ -787,6 +787,16 @@ class Probe:
             r = self.mhooks[m](self, e, env)
             if r is not NotImplemented:
                 return r
+        if m in ("reverse", "sort", "dedup") and not e["args"]:
+            try:
+                lst = self.ev(e["recv"], env)
+            except NoEval:
+                lst = None
+            if isinstance(lst, list):
+                if m == "reverse":
+                    lst.reverse()
+                    return ()
+                raise NoEval("method %s" % m)
         if m in ("push", "pop", "clear", "insert", "truncate") and m != "insert":
             # Vec in place: lists are mutable values here
             try:
